@@ -26,69 +26,220 @@ ASSUMPTIONS = [
 BUFS = [1, 2, 3, 7, 64, 512, 4096]
 
 
+class HistRunner:
+    """the real SocketWrapper over a ScriptedSocket, driven one operation at a time with the history invariant
+    evaluated after every step (used by the op-list oracle and by the Hypothesis state machine alike)"""
+
+    def __init__(self, bufsize, init, empty):
+        from pyrtcm.socketwrapper import SocketWrapper
+
+        self.bufsize = bufsize
+        self.sock = ScriptedSocket([bytes.fromhex(e[1]) if e[0] == "send" else e[0] for e in init])
+        self.sock.empty_means = empty
+        self.sock.budget = 200000
+        self.cls = set()
+        self.delivered = bytearray()
+        self.k = 0
+        try:
+            self.w = SocketWrapper(self.sock, bufsize=bufsize)
+            self.inv("constructor")
+        except BaseException:
+            self.sock.close()
+            raise
+
+    def close(self):
+        self.sock.close()
+
+    def inv(self, step):
+        w, sock = self.w, self.sock
+        if bytes(self.delivered) + bytes(w.buffer) != bytes(sock.handed):
+            lost = len(sock.handed) - len(self.delivered) - len(w.buffer)
+            raise Fail("bytes-lost-duplicated-or-reordered", f"after step {step}: delivered {len(self.delivered)} + buffered {len(w.buffer)} != received {len(sock.handed)} (difference {lost}) or content differs; bufsize {self.bufsize}")
+
+    def step(self, op):
+        w, sock, cls = self.w, self.sock, self.cls
+        k = self.k
+        self.k += 1
+        kind = op[0]
+        if kind == "send":
+            sock.push(bytes.fromhex(op[1]))
+            return
+        if kind in ("timeout", "oserror", "close"):
+            sock.push(kind)
+            return
+        l0 = len(sock.log)
+        buf0 = len(w.buffer)
+        if kind == "read":
+            n = op[1]
+            r = w.read(n)
+            if not isinstance(r, (bytes, bytearray)):
+                raise Fail("read-type", f"read({n}) returned {type(r).__name__}")
+            events = [o for _, o in sock.log[l0:]]
+            bad = [o for o in events if o in ("eof", "timeout", "oserror")]
+            if len(r) > n:
+                raise Fail("read-returns-more-than-requested", f"read({n}) returned {len(r)} bytes")
+            if len(r) < n and not bad:
+                raise Fail("short-read-without-cause", f"read({n}) returned {len(r)} bytes although no close / timeout / error occurred (buffer held {buf0}, bufsize {self.bufsize})")
+            self.delivered += r
+            if events and len(r) == n and buf0 < n and buf0 > 0:
+                cls.add("refill-straddles-read")
+            if "timeout" in events and buf0 > 0:
+                cls.add("timeout-with-nonempty-buffer")
+            if "oserror" in events:
+                cls.add("oserror-during-read")
+            if "eof" in events:
+                cls.add("eof-during-read")
+        else:
+            r = w.readline()
+            events = [o for _, o in sock.log[l0:]]
+            bad = [o for o in events if o in ("eof", "timeout", "oserror")]
+            self.delivered += r
+            pos = r.find(b"\r\n")
+            if pos >= 0 and pos != len(r) - 2:
+                raise Fail("readline-past-crlf", f"readline returned {r[:40]!r}.. which continues past the first CRLF")
+            if pos < 0 and not bad:
+                raise Fail("readline-short-without-cause", f"readline returned {len(r)} bytes without CRLF although no close / timeout / error occurred")
+            cls.add("readline-complete" if pos >= 0 else "readline-cut-by-event")
+        self.inv(f"{k}:{op}")
+
+
 def o_hist(case):
-    from pyrtcm.socketwrapper import SocketWrapper
-
-    sock = ScriptedSocket([bytes.fromhex(e[1]) if e[0] == "send" else e[0] for e in case["init"]])
-    sock.empty_means = case["empty"]
-    sock.budget = 200000
-    cls = set()
+    if "machine_stats" in case:
+        ms = case["machine_stats"]
+        return Res(False, ["state-machine-run"], evals=ms["steps"])
+    h = HistRunner(case["bufsize"], case["init"], case["empty"])
     try:
-        w = SocketWrapper(sock, bufsize=case["bufsize"])
-        delivered = bytearray()
-
-        def inv(step):
-            if bytes(delivered) + bytes(w.buffer) != bytes(sock.handed):
-                lost = len(sock.handed) - len(delivered) - len(w.buffer)
-                raise Fail("bytes-lost-duplicated-or-reordered", f"after step {step}: delivered {len(delivered)} + buffered {len(w.buffer)} != received {len(sock.handed)} (difference {lost}) or content differs; bufsize {case['bufsize']}")
-
-        inv("constructor")
-        for k, op in enumerate(case["ops"]):
-            kind = op[0]
-            if kind == "send":
-                sock.push(bytes.fromhex(op[1]))
-                continue
-            if kind in ("timeout", "oserror", "close"):
-                sock.push(kind)
-                continue
-            l0 = len(sock.log)
-            buf0 = len(w.buffer)
-            if kind == "read":
-                n = op[1]
-                r = w.read(n)
-                if not isinstance(r, (bytes, bytearray)):
-                    raise Fail("read-type", f"read({n}) returned {type(r).__name__}")
-                events = [o for _, o in sock.log[l0:]]
-                bad = [o for o in events if o in ("eof", "timeout", "oserror")]
-                if len(r) > n:
-                    raise Fail("read-returns-more-than-requested", f"read({n}) returned {len(r)} bytes")
-                if len(r) < n and not bad:
-                    raise Fail("short-read-without-cause", f"read({n}) returned {len(r)} bytes although no close / timeout / error occurred (buffer held {buf0}, bufsize {case['bufsize']})")
-                delivered += r
-                if events and len(r) == n and buf0 < n and buf0 > 0:
-                    cls.add("refill-straddles-read")
-                if "timeout" in events and buf0 > 0:
-                    cls.add("timeout-with-nonempty-buffer")
-                if "oserror" in events:
-                    cls.add("oserror-during-read")
-                if "eof" in events:
-                    cls.add("eof-during-read")
-            else:
-                r = w.readline()
-                events = [o for _, o in sock.log[l0:]]
-                bad = [o for o in events if o in ("eof", "timeout", "oserror")]
-                delivered += r
-                pos = r.find(b"\r\n")
-                if pos >= 0 and pos != len(r) - 2:
-                    raise Fail("readline-past-crlf", f"readline returned {r[:40]!r}.. which continues past the first CRLF")
-                if pos < 0 and not bad:
-                    raise Fail("readline-short-without-cause", f"readline returned {len(r)} bytes without CRLF although no close / timeout / error occurred")
-                cls.add("readline-complete" if pos >= 0 else "readline-cut-by-event")
-            inv(f"{k}:{op}")
+        for op in case["ops"]:
+            h.step(op)
     finally:
-        sock.close()
+        h.close()
+    cls = h.cls
     nt = "refill-straddles-read" in cls and "timeout-with-nonempty-buffer" in cls
-    return Res(nontrivial=nt, classes=sorted(cls) + [f"bufsize{case['bufsize']}"], evals=len(case["ops"]) + 1)
+    extra = [f"long-stream>={case['long'] // 1024}KiB"] if case.get("long") else []
+    return Res(nontrivial=nt, classes=sorted(cls) + [f"bufsize{case['bufsize']}"] + extra, evals=len(case["ops"]) + 1)
+
+
+# ------------------------------------------------------------------ the same histories as a Hypothesis state machine
+def e_machine(tier, shard, nshards):
+    """RuleBasedStateMachine over the real wrapper: rules are peer / reader operations with generated arguments, the
+    invariant runs after every step, Hypothesis shrinks the whole rule sequence.  The machine records the history it
+    executes; a failing (shrunk) history is handed to the op-list oracle above, so it is bucketed and replayable."""
+    import os
+
+    import hypothesis
+    from hypothesis import settings
+    from hypothesis.stateful import RuleBasedStateMachine, initialize, invariant, precondition, rule, run_state_machine_as_test
+
+    from pv import core
+
+    stats = {"machines": 0, "steps": 0, "nontrivial": 0}
+    failing = {"case": None}
+
+    class WrapperMachine(RuleBasedStateMachine):
+        def __init__(self):
+            super().__init__()
+            self.h = None
+            self.case = None
+
+        @initialize(bufsize=st.sampled_from(BUFS), init=st.lists(st.one_of(_payloads(), st.sampled_from([["timeout"], ["oserror"]])), max_size=3), empty=st.sampled_from(["timeout", "eof"]))
+        def start(self, bufsize, init, empty):
+            self.case = {"bufsize": bufsize, "init": init, "ops": [], "empty": empty}
+            stats["machines"] += 1
+            self.h = HistRunner(bufsize, init, empty)
+
+        def _do(self, op):
+            self.case["ops"].append(op)
+            stats["steps"] += 1
+            try:
+                self.h.step(op)
+            except Fail:
+                failing["case"] = {**self.case, "ops": list(self.case["ops"])}
+                raise
+
+        @rule(data=st.one_of(st.binary(min_size=1, max_size=40), st.binary(min_size=1, max_size=600), st.sampled_from([b"\r\n", b"\r", b"\n", b"abc\r\n"])))
+        def peer_sends(self, data):
+            self._do(["send", data.hex()])
+
+        @rule()
+        def peer_times_out(self):
+            self._do(["timeout"])
+
+        @rule()
+        def peer_oserror(self):
+            self._do(["oserror"])
+
+        @precondition(lambda self: self.case is not None and ["close"] not in self.case["ops"])
+        @rule()
+        def peer_closes(self):
+            self._do(["close"])
+
+        @rule(n=st.one_of(st.integers(0, 70), st.sampled_from([1, 2, 3, 7, 8, 63, 64, 65, 511, 512, 513]), st.integers(0, 700)))
+        def read(self, n):
+            self._do(["read", n])
+
+        @rule()
+        def readline(self):
+            self._do(["readline"])
+
+        @invariant()
+        def conserved(self):
+            if self.h is not None:
+                try:
+                    self.h.inv("invariant")
+                except Fail:
+                    failing["case"] = {**self.case, "ops": list(self.case["ops"])}
+                    raise
+
+        def teardown(self):
+            if self.h is not None:
+                if "refill-straddles-read" in self.h.cls and "timeout-with-nonempty-buffer" in self.h.cls:
+                    stats["nontrivial"] += 1
+                self.h.close()
+
+    vseed = int(os.environ.get("VERIF_SEED", "1") or "1")
+    n = 40 if tier == "quick" else 600
+    cfg = settings(max_examples=n, stateful_step_count=40, database=None, deadline=None, report_multiple_bugs=False, print_blob=False, suppress_health_check=list(hypothesis.HealthCheck))
+    try:
+        run_state_machine_as_test(hypothesis.seed(core.derive_seed(vseed, "c11-machine", shard))(WrapperMachine), settings=cfg)
+    except Fail:
+        pass
+    except Exception:  # pylint: disable=broad-except
+        if failing["case"] is None:
+            raise
+    yield {"machine_stats": stats}
+    if failing["case"] is not None:
+        yield failing["case"]
+
+
+def e_long(tier, shard, nshards):
+    """one wrapper instance fed far more than any plausible internal threshold (buffer compaction, offsets)"""
+    import hashlib
+
+    sizes = [96 * 1024, 300 * 1024] if tier == "quick" else [96 * 1024, 300 * 1024, 1200 * 1024, 2500 * 1024]
+    k = 0
+    for total in sizes:
+        for bufsize, seg, rd in ((4096, 1500, 997), (512, 4000, 61), (4096, 9000, 4096), (64, 700, 1)):
+            k += 1
+            if k % nshards != shard:
+                continue
+            if rd == 1 and total > 300 * 1024:
+                continue
+            ops = []
+            sent = 0
+            j = 0
+            while sent < total:
+                blk = hashlib.blake2b(f"{total}|{j}".encode(), digest_size=64).digest() * (seg // 64 + 1)
+                ops.append(["send", blk[:seg].hex()])
+                sent += seg
+                j += 1
+                for _ in range(max(1, seg // max(rd, 1) if rd > 1 else 40)):
+                    ops.append(["read", rd])
+                if j % 7 == 0:
+                    ops.append(["timeout"])
+                    ops.append(["read", rd + 3])
+            ops.append(["close"])
+            ops += [["read", rd]] * 50
+            yield {"bufsize": bufsize, "init": [], "ops": ops, "empty": "timeout", "long": total}
 
 
 def _payloads():
@@ -154,6 +305,8 @@ def s_diff(draw, tier):
 
 def _short(c):
     c = dict(c)
+    if c.get("long"):
+        return {"long": c["long"], "bufsize": c["bufsize"], "ops": f"{len(c['ops'])} operations: sends, reads, periodic timeouts, close"}
     if "items" in c:
         c["items"] = [{**i, "b": i["b"][:40] + ("..." if len(i["b"]) > 40 else "")} for i in c["items"]]
     if "ops" in c:
@@ -162,6 +315,7 @@ def _short(c):
 
 
 SUBS = [
-    Sub("wrapper_histories", o_hist, strategy=s_hist, examples=(600, 8000), rule="refill straddling a read and a timeout with a non-empty buffer in one history", need={"refill-straddles-read": 1, "timeout-with-nonempty-buffer": 1, "readline-complete": 1, "readline-cut-by-event": 1, "eof-during-read": 1}, sample=_short),
+    Sub("wrapper_histories", o_hist, strategy=s_hist, enum=e_long, examples=(600, 8000), rule="refill straddling a read and a timeout with a non-empty buffer in one history", need={"refill-straddles-read": 1, "timeout-with-nonempty-buffer": 1, "readline-complete": 1, "readline-cut-by-event": 1, "eof-during-read": 1}, sample=_short),
+    Sub("wrapper_state_machine", o_hist, enum=e_machine, rule="RuleBasedStateMachine runs over the same operations; evaluations = rule steps executed; failing histories are re-judged by the op-list oracle", sample=_short),
     Sub("reader_socket_equals_file", o_diff, strategy=s_diff, examples=(120, 3000), rule=">= 2 frames and a cut inside a frame", need={"cut-inside-frame": 1}, sample=_short),
 ]
